@@ -7,6 +7,7 @@
 package bluemonday
 
 //@ func (*bluemonday.Policy).allowNoAttrs
+//@   reveal[C14] wfRegex
 //@   requires p != nil
 //@   ensures result == bareOK(p, elementName)
 //@   loop 0 "for _, r := range p.setOfElementsMatchingAllowedWithoutAttrs"
@@ -14,6 +15,7 @@ package bluemonday
 //@     invariant forall j int :: 0 <= j && j <= rangeindex ==> !rmatch(p.setOfElementsMatchingAllowedWithoutAttrs[j], elementName)
 
 //@ func (*bluemonday.Policy).init
+//@   reveal wfRegex, wfInner, wfURLPols
 //@   requires wfp(p)
 //@   ensures wfp(p) && p.initialized
 //@   ensures !old(p.initialized) ==> fresh(p.elsAndAttrs) && fresh(p.elsMatchingAndAttrs) && fresh(p.globalAttrs) && fresh(p.elsAndStyles) && fresh(p.elsMatchingAndStyles) && fresh(p.globalStyles) && fresh(p.allowURLSchemes) && fresh(p.setOfElementsAllowedWithoutAttrs) && fresh(p.setOfElementsToSkipContent)
@@ -25,6 +27,7 @@ package bluemonday
 //@   modifies nothing
 
 //@ func (*bluemonday.Policy).matchRegex
+//@   reveal[C14] wfRegex
 //@   requires wfp(p) && p.initialized
 //@   modifies nothing
 //@   ensures result0 != nil && fresh(result0)
@@ -39,6 +42,7 @@ package bluemonday
 //@     invariant[C02] apsRulesOKE(p, elementName, aps)
 
 //@ func (*bluemonday.Policy).sanitize
+//@   reveal[C14] wfRegex
 //@   requires wfp(p) && p.initialized && r != nil && w != nil
 //@   requires[C16] !outFailed
 //@   modifies ghost outFailed, outN, outLast, outCount, tzCur, tzPrev, tzErr, sanEl, sanRes
@@ -98,12 +102,14 @@ package bluemonday
 //@   ensures result ==> rmatch(dataAttribute, val)
 
 //@ func (*bluemonday.Policy).sanitizeStyles
+//@   reveal[C14] wfRegex
 //@   requires wfp(p) && p.initialized
 //@   modifies nothing
 //@   ensures result.Key == attr.Key && result.Namespace == attr.Namespace
 //@   ensures[C02] result.Val == "" || styleFiltered(p, elementName, result.Val)
 
 //@ func (*bluemonday.Policy).sanitizeAttrs
+//@   reveal[C14] wfRegex
 //@   requires wfp(p) && p.initialized
 //@   requires[C02] apsFor(p, elementName, aps)
 //@   modifies nothing
@@ -215,6 +221,7 @@ package bluemonday
 //@     invariant[C03] p.requireParseableURLs ==> urlsOK(p, elementName, cleanAttrs)
 
 //@ func (*bluemonday.Policy).validURL
+//@   reveal[C14] wfRegex, wfURLPols
 //@   requires wfp(p) && p.initialized
 //@   modifies nothing
 //@   ensures !p.requireParseableURLs ==> result1 && result0 == rawurl
@@ -251,6 +258,7 @@ package bluemonday
 // builders (policy.go, helpers.go, policies.go)
 
 //@ func bluemonday.NewPolicy
+//@   reveal wfRegex, wfInner, wfURLPols
 //@   ensures result != nil && fresh(result) && wfp(result) && result.initialized
 //@   ensures[C17] fresh(result.elsAndAttrs) && fresh(result.elsMatchingAndAttrs) && fresh(result.globalAttrs) && fresh(result.elsAndStyles) && fresh(result.elsMatchingAndStyles) && fresh(result.globalStyles) && fresh(result.allowURLSchemes) && fresh(result.setOfElementsAllowedWithoutAttrs) && fresh(result.setOfElementsToSkipContent)
 //@   ensures[C04,C17] forall e string :: !(e in result.elsAndAttrs)
@@ -258,6 +266,7 @@ package bluemonday
 //@   ensures[C04,C17] !result.allowComments && !result.allowUnsafe && !result.addSpaces && !result.allowDataAttributes && !result.requireParseableURLs
 
 //@ func (*bluemonday.Policy).addDefaultElementsWithoutAttrs
+//@   reveal wfRegex, wfInner, wfURLPols
 //@   requires wfp(p)
 //@   ensures wfp(p) && p.initialized
 //@   ensures !old(p.initialized) ==> fresh(p.elsAndAttrs) && fresh(p.elsMatchingAndAttrs) && fresh(p.globalAttrs) && fresh(p.elsAndStyles) && fresh(p.elsMatchingAndStyles) && fresh(p.globalStyles) && fresh(p.allowURLSchemes) && fresh(p.setOfElementsAllowedWithoutAttrs) && fresh(p.setOfElementsToSkipContent)
@@ -266,12 +275,14 @@ package bluemonday
 //@   modifies p.setOfElementsAllowedWithoutAttrs
 
 //@ func (*bluemonday.Policy).addDefaultSkipElementContent
+//@   reveal wfRegex, wfInner, wfURLPols
 //@   requires wfp(p)
 //@   ensures wfp(p) && p.initialized
 //@   modifies p when !p.initialized
 //@   modifies p.setOfElementsToSkipContent
 
 //@ func (*bluemonday.Policy).AllowAttrs
+//@   reveal wfRegex, wfInner, wfURLPols
 //@   requires wfp(p)
 //@   modifies p when !p.initialized
 //@   ensures wfp(p) && p.initialized && wfb(result) && fresh(result) && result.p == p
@@ -284,22 +295,26 @@ package bluemonday
 //@     invariant rangeindex < len(attrNames)
 
 //@ func (*bluemonday.Policy).AllowNoAttrs
+//@   reveal wfRegex, wfInner, wfURLPols
 //@   requires wfp(p)
 //@   modifies p when !p.initialized
 //@   ensures wfp(p) && p.initialized && wfb(result) && fresh(result) && result.p == p
 //@   ensures[C17] len(result.attrNames) == 0 && result.regexp == nil && result.allowEmpty
 
 //@ func (*bluemonday.attrPolicyBuilder).AllowNoAttrs
+//@   reveal wfRegex, wfInner, wfURLPols
 //@   requires wfb(abp)
 //@   modifies abp
 //@   ensures result == abp && wfb(abp) && abp.allowEmpty && abp.regexp == old(abp.regexp) && abp.attrNames == old(abp.attrNames) && abp.p == old(abp.p)
 
 //@ func (*bluemonday.attrPolicyBuilder).Matching
+//@   reveal wfRegex, wfInner, wfURLPols
 //@   requires wfb(abp)
 //@   modifies abp
 //@   ensures result == abp && wfb(abp) && abp.regexp == regex && abp.allowEmpty == old(abp.allowEmpty) && abp.attrNames == old(abp.attrNames) && abp.p == old(abp.p)
 
 //@ func (*bluemonday.attrPolicyBuilder).Globally
+//@   reveal wfRegex, wfInner, wfURLPols
 //@   requires wfb(abp)
 //@   modifies abp.p.globalAttrs
 //@   ensures result == abp.p && wfp(abp.p) && abp.p.initialized
